@@ -322,7 +322,7 @@ def write_replay(prop, viol, tier, seed):
 def run_replay(module, path):
     bootstrap()
     doc = json.load(open(path, encoding='utf-8'))
-    ctx = Ctx(module.PROPERTY, {'kind': 'replay'}, 'quick', 0)
+    ctx = Ctx(module.PROPERTY, {'kind': 'replay'}, 'quick', int(doc.get('seed') or 0))
     ok = ctx.guarded(module.replay, doc['case'], ctx)
     return ok, ctx
 
